@@ -253,6 +253,24 @@ def inplace_cases(rng):
         return x
     add("write through a transposed view", transposed_write, R(2, 3))
 
+    def clone_keeps_layout(x):
+        y = x.t().clone()                 # stays transposed: reshape cannot be a view, writes into it are lost
+        y.reshape(-1).mul_(2.0)
+        z = x.clone()
+        z.reshape(-1).mul_(3.0)           # contiguous: a view, the write lands in z
+        c = x.t().contiguous()
+        c.reshape(-1).add_(1.0)           # a fresh copy, x untouched
+        return [y, z, c, x, torch.tensor(float(y.is_contiguous()) + 2 * float(z.is_contiguous()))]
+    add("clone keeps strides / reshape view-or-copy / contiguous copies", clone_keeps_layout, R(2, 3))
+
+    def view_raises(x):
+        try:
+            x.t().view(-1)
+            return x * 0
+        except RuntimeError:
+            return x.t().reshape(-1)
+    add("view of a transposed tensor raises", view_raises, R(2, 3))
+
     def diag_div(x, y):
         return x.clone().div_(y)
     add("div_", diag_div, R(2, 3), torch.tensor(rng.integers(1, 4, size=(2, 3)) / 1.0, dtype=torch.double))
